@@ -34,10 +34,12 @@ Act(op) == CASE op = "T.Fold" -> "Fold" [] op = "T.Check" -> "Check" [] op = "T.
              [] op = "T.Pass" -> "Pass" [] op = "T.Bet" -> "Bet" [] op = "T.Raise" -> "Raise" [] OTHER -> "?"
 
 \* what the recorded line shows of the table, as the model's record (hidden: inPos, running, the ready group's bookkeeping)
-Shown(t) == [opt |-> t.opt, sm |-> [t.sm EXCEPT !.crashed = FALSE], pl |-> t.pl, closed |-> (t.status = "closed"), status |-> t.status, count |-> t.count, hasG |-> t.hasG,
+\* the status is written by the table loop without a lock: "preparing" / "playing" / "pending" are one class for the comparison
+StatusClass(st) == IF st \in {"closed", "idle"} THEN st ELSE "busy"
+Shown(t) == [opt |-> t.opt, sm |-> [t.sm EXCEPT !.crashed = FALSE], pl |-> t.pl, closed |-> (t.status = "closed"), status |-> StatusClass(t.status), count |-> t.count, hasG |-> t.hasG,
              g |-> IF t.hasG THEN Norm(t.tg.g) ELSE NULL]
 ObsG(T) == ToGs(T.G, T.deck)
-Obs(T, opt) == [opt |-> ToOpt(opt), sm |-> ToM(T.sm), pl |-> ToPl(T.players), closed |-> (T.status = "closed"), status |-> T.status, count |-> T.count, hasG |-> T.hasG,
+Obs(T, opt) == [opt |-> ToOpt(opt), sm |-> ToM(T.sm), pl |-> ToPl(T.players), closed |-> (T.status = "closed"), status |-> StatusClass(T.status), count |-> T.count, hasG |-> T.hasG,
            g |-> IF T.hasG THEN ObsG(T) ELSE NULL]
 PwOf(g) == [i \in Seats(g) |-> g.P[i].comb]
 Oracle(T) ==
